@@ -13,7 +13,11 @@ EXTENDS CsyncP, Integers
 CONSTANTS
     Prog,        \* Prog[p]: sequence of [op, w, c, k] records; p \in 1..Len(Prog)
     FixF1,       \* TRUE: cancelled write-waiter broadcasts (code after the fix: commit); FALSE: pinned code
-    EagerWake    \* TRUE: wake-ups are taken before anything else (controller granularity)
+    EagerWake,   \* TRUE: wake-ups are taken before anything else (controller granularity)
+    Fine         \* TRUE: the END of a critical section is a scheduling point too (sched.Exec.ParkUnl): the
+                 \* logged return of a call (Ret), of a release (RelRet) and a waiter's entry into its
+                 \* select (EnterSel) are steps of their own, so other processes run between a decision
+                 \* and its logged return.  The CsyncP monitor is told (PInitF) and must hold either way.
 
 Procs == 1..Len(Prog)
 Id(p, j) == p * 100 + j
@@ -25,9 +29,10 @@ VARIABLES
     ip,        \* per process index of the current/next op
     status,    \* acquisition id -> 0 waiting | 1 held | 2 released   (the per-call status word)
     ctxc,      \* per process: context of the call in flight is cancelled
-    relid      \* per process: acquisition id whose release is in progress
+    relid,     \* per process: acquisition id whose release is in progress
+    rres       \* per process (Fine): result of the call whose return is still to be logged
 
-xvars == <<nreaders, writing, writeWaiting, wch, pc, ip, status, ctxc, relid>>
+xvars == <<nreaders, writing, writeWaiting, wch, pc, ip, status, ctxc, relid, rres>>
 vars == <<xvars, pvars>>
 
 Op(p) == Prog[p][ip[p]]
@@ -35,7 +40,8 @@ CurId(p) == Id(p, ip[p])
 IsW(p) == Op(p).w
 
 Init ==
-    /\ PInit
+    /\ PInitF(Fine)
+    /\ rres = [p \in Procs |-> ""]
     /\ nreaders = 0 /\ writing = FALSE /\ writeWaiting = 0
     /\ wch = [p \in Procs |-> "none"]
     /\ pc = [p \in Procs |-> "idle"]
@@ -72,12 +78,12 @@ Call(p) ==
               /\ status' = (CurId(p) :> 0) @@ status
               /\ ctxc' = [ctxc EXCEPT ![p] = FALSE]
               /\ PCall(CurId(p), IF o.w THEN "w" ELSE "r", BlockedIds)
-              /\ UNCHANGED <<nreaders, writing, writeWaiting, wch, ip, relid>>
+              /\ UNCHANGED <<nreaders, writing, writeWaiting, wch, ip, relid, rres>>
          [] o.op = "trylock" ->
               /\ pc' = [pc EXCEPT ![p] = "trycs"]
               /\ status' = (CurId(p) :> 0) @@ status
               /\ PCall(CurId(p), IF o.w THEN "w" ELSE "r", BlockedIds)
-              /\ UNCHANGED <<nreaders, writing, writeWaiting, wch, ip, ctxc, relid>>
+              /\ UNCHANGED <<nreaders, writing, writeWaiting, wch, ip, ctxc, relid, rres>>
          [] o.op = "rel" ->
               LET i == Id(p, o.k) IN
               IF i \in Ids /\ st[i] \in {"held", "released"}
@@ -89,17 +95,36 @@ Call(p) ==
                            /\ relid' = [relid EXCEPT ![p] = i]
                            /\ UNCHANGED ip
                       ELSE /\ PRelNoop(i) /\ Advance(p) /\ UNCHANGED <<pc, relid>>
-                   /\ UNCHANGED <<nreaders, writing, writeWaiting, wch, ctxc>>
+                   /\ UNCHANGED <<nreaders, writing, writeWaiting, wch, ctxc, rres>>
               ELSE \* the acquisition failed: there is no release function to call
                    /\ Advance(p)
-                   /\ UNCHANGED <<nreaders, writing, writeWaiting, wch, pc, status, ctxc, relid, pvars>>
+                   /\ UNCHANGED <<nreaders, writing, writeWaiting, wch, pc, status, ctxc, relid, rres, pvars>>
 
-Return(p, res) ==
+LogRet(p, res) ==
     /\ pc' = [pc EXCEPT ![p] = "idle"]
     /\ Advance(p)
     /\ LET st2 == [st EXCEPT ![CurId(p)] = IF res = "ok" THEN "held" ELSE "x"]
            h2 == {j \in Ids : st2[j] = "held"}
        IN PRet(CurId(p), res, Cardinality({j \in h2 : md[j] = "r"}), Cardinality({j \in h2 : md[j] = "w"}))
+
+\* the call has decided; Fine: the goroutine parks at the end of the critical section, the return is
+\* logged by a later step (Ret)
+Return(p, res) ==
+    IF Fine
+    THEN /\ pc' = [pc EXCEPT ![p] = "ret"]
+         /\ rres' = [rres EXCEPT ![p] = res]
+         /\ UNCHANGED <<ip, pvars>>
+    ELSE LogRet(p, res) /\ UNCHANGED rres
+
+Ret(p) ==
+    /\ Gate
+    /\ pc[p] = "ret"
+    /\ LogRet(p, rres[p])
+    /\ rres' = [rres EXCEPT ![p] = ""]
+    /\ UNCHANGED <<nreaders, writing, writeWaiting, wch, status, ctxc, relid>>
+
+\* where a process goes after a critical section that left it waiting
+Wait == IF Fine THEN "presel" ELSE "sel"
 
 \* first critical section of Lock (rwmutex.go:37-52)
 CS1(p) ==
@@ -109,8 +134,8 @@ CS1(p) ==
        THEN IF nreaders # 0 \/ writing
             THEN /\ writeWaiting' = writeWaiting + 1
                  /\ wch' = GetCh(wch, p)
-                 /\ pc' = [pc EXCEPT ![p] = "sel"]
-                 /\ UNCHANGED <<nreaders, writing, status, ip, pvars>>
+                 /\ pc' = [pc EXCEPT ![p] = Wait]
+                 /\ UNCHANGED <<nreaders, writing, status, ip, rres, pvars>>
             ELSE /\ writing' = TRUE
                  /\ status' = [status EXCEPT ![CurId(p)] = 1]
                  /\ Return(p, "ok")
@@ -121,22 +146,31 @@ CS1(p) ==
                  /\ Return(p, "ok")
                  /\ UNCHANGED <<writing, writeWaiting, wch>>
             ELSE /\ wch' = GetCh(wch, p)
-                 /\ pc' = [pc EXCEPT ![p] = "sel"]
-                 /\ UNCHANGED <<nreaders, writing, writeWaiting, status, ip, pvars>>
+                 /\ pc' = [pc EXCEPT ![p] = Wait]
+                 /\ UNCHANGED <<nreaders, writing, writeWaiting, status, ip, rres, pvars>>
     /\ UNCHANGED <<ctxc, relid>>
+
+\* Fine: the waiter was parked between the critical section in which it obtained its wait channel
+\* and its select; broadcasts and a cancellation may have landed in between, the select is then
+\* entered with several cases ready (Wake and WakeCtx both enabled: Go picks either)
+EnterSel(p) ==
+    /\ Gate
+    /\ pc[p] = "presel"
+    /\ pc' = [pc EXCEPT ![p] = "sel"]
+    /\ UNCHANGED <<nreaders, writing, writeWaiting, wch, ip, status, ctxc, relid, rres, pvars>>
 
 \* select: the wait channel fired
 Wake(p) ==
     /\ pc[p] = "sel" /\ wch[p] = "closed"
     /\ pc' = [pc EXCEPT ![p] = "cs2"]
-    /\ UNCHANGED <<nreaders, writing, writeWaiting, wch, ip, status, ctxc, relid, pvars>>
+    /\ UNCHANGED <<nreaders, writing, writeWaiting, wch, ip, status, ctxc, relid, rres, pvars>>
 
 \* select: ctx.Done fired -> release(): pre := status.Swap(2) = 0 -> HoldLock
 WakeCtx(p) ==
     /\ pc[p] = "sel" /\ ctxc[p]
     /\ status' = [status EXCEPT ![CurId(p)] = 2]
     /\ pc' = [pc EXCEPT ![p] = "cancelcs"]
-    /\ UNCHANGED <<nreaders, writing, writeWaiting, wch, ip, ctxc, relid, pvars>>
+    /\ UNCHANGED <<nreaders, writing, writeWaiting, wch, ip, ctxc, relid, rres, pvars>>
 
 \* critical section of release() with pre = 0 (rwmutex.go:60-66), then return context.Canceled
 CancelCS(p) ==
@@ -161,16 +195,16 @@ CS2(p) ==
                  /\ Return(p, "ok")
                  /\ UNCHANGED <<nreaders, wch>>
             ELSE /\ wch' = GetCh(wch, p)
-                 /\ pc' = [pc EXCEPT ![p] = "sel"]
-                 /\ UNCHANGED <<nreaders, writing, writeWaiting, status, ip, pvars>>
+                 /\ pc' = [pc EXCEPT ![p] = Wait]
+                 /\ UNCHANGED <<nreaders, writing, writeWaiting, status, ip, rres, pvars>>
        ELSE IF ~writing /\ writeWaiting = 0
             THEN /\ nreaders' = nreaders + 1
                  /\ status' = [status EXCEPT ![CurId(p)] = 1]
                  /\ Return(p, "ok")
                  /\ UNCHANGED <<writing, writeWaiting, wch>>
             ELSE /\ wch' = GetCh(wch, p)
-                 /\ pc' = [pc EXCEPT ![p] = "sel"]
-                 /\ UNCHANGED <<nreaders, writing, writeWaiting, status, ip, pvars>>
+                 /\ pc' = [pc EXCEPT ![p] = Wait]
+                 /\ UNCHANGED <<nreaders, writing, writeWaiting, status, ip, rres, pvars>>
     /\ UNCHANGED <<ctxc, relid>>
 
 \* critical section of release() with pre = 1 (rwmutex.go:67-74) / of the TryLock release
@@ -181,11 +215,23 @@ RelCS(p) ==
        THEN writing' = FALSE /\ UNCHANGED nreaders
        ELSE nreaders' = nreaders - 1 /\ UNCHANGED writing
     /\ wch' = Bcast(wch)
+    /\ IF Fine
+       THEN pc' = [pc EXCEPT ![p] = "relret"] /\ UNCHANGED <<ip, relid, pvars>>
+       ELSE /\ pc' = [pc EXCEPT ![p] = "idle"]
+            /\ Advance(p)
+            /\ relid' = [relid EXCEPT ![p] = 0]
+            /\ PRelRet(relid[p])
+    /\ UNCHANGED <<writeWaiting, status, ctxc, rres>>
+
+\* Fine: the release function returns in a later step than its critical section
+RelRet(p) ==
+    /\ Gate
+    /\ pc[p] = "relret"
     /\ pc' = [pc EXCEPT ![p] = "idle"]
     /\ Advance(p)
     /\ relid' = [relid EXCEPT ![p] = 0]
     /\ PRelRet(relid[p])
-    /\ UNCHANGED <<writeWaiting, status, ctxc>>
+    /\ UNCHANGED <<nreaders, writing, writeWaiting, wch, status, ctxc, rres>>
 
 \* the single critical section of TryLock (rwmutex.go:121-135)
 TryCS(p) ==
@@ -205,13 +251,14 @@ TryCS(p) ==
 \* Environment: the context of p's Lock call is cancelled (at any point of the call).
 Cancel(p) ==
     /\ Gate
-    /\ pc[p] \in {"cs1", "sel", "cs2"} /\ Op(p).op = "lock" /\ Op(p).c /\ ~ctxc[p]
+    /\ pc[p] \in {"cs1", "presel", "sel", "cs2", "ret"} /\ Op(p).op = "lock" /\ Op(p).c /\ ~ctxc[p]
     /\ ctxc' = [ctxc EXCEPT ![p] = TRUE]
     /\ PCancel(CurId(p))
-    /\ UNCHANGED <<nreaders, writing, writeWaiting, wch, pc, ip, status, relid>>
+    /\ UNCHANGED <<nreaders, writing, writeWaiting, wch, pc, ip, status, relid, rres>>
 
 -----------------------------------------------------------------------------
 Lib(p) == CS1(p) \/ CS2(p) \/ CancelCS(p) \/ RelCS(p) \/ TryCS(p) \/ Wake(p) \/ WakeCtx(p)
+          \/ EnterSel(p) \/ Ret(p) \/ RelRet(p)
 Env(p) == Call(p) \/ Cancel(p)
 
 Next ==
@@ -219,6 +266,7 @@ Next ==
         \/ Call(p) \/ Cancel(p)
         \/ CS1(p) \/ CS2(p) \/ CancelCS(p) \/ RelCS(p) \/ TryCS(p)
         \/ Wake(p) \/ WakeCtx(p)
+        \/ EnterSel(p) \/ Ret(p) \/ RelRet(p)
 
 Spec == Init /\ [][Next]_vars
 
@@ -236,9 +284,11 @@ TypeOK ==
 \* the implementation's fields agree with the API-level holder set, except while a release is
 \* between its status swap and its critical section
 Agree ==
-    LET rel == {relid[p] : p \in {q \in Procs : pc[q] = "relcs"}} IN
-    /\ nreaders = Cardinality(HeldR) + Cardinality({i \in rel : md[i] = "r"})
-    /\ writing = (HeldW # {} \/ \E i \in rel : md[i] = "w")
+    LET rel == {relid[p] : p \in {q \in Procs : pc[q] = "relcs"}}
+        \* Fine: acquired, return not logged yet
+        acq == {CurId(p) : p \in {q \in Procs : pc[q] = "ret" /\ rres[q] = "ok"}} IN
+    /\ nreaders = Cardinality(HeldR) + Cardinality({i \in rel \cup acq : md[i] = "r"})
+    /\ writing = (HeldW # {} \/ \E i \in rel \cup acq : md[i] = "w")
 
 \* C02 at quiescent points, through the monitor's own definition
 QuietInv == LibQuiet => QuietOK(BlockedIds)
@@ -249,12 +299,12 @@ NoResidue ==
 
 \* writeWaiting counts exactly the registered write-waiters
 WaitCount ==
-    writeWaiting = Cardinality({p \in Procs : pc[p] \in {"sel", "cs2", "cancelcs"} /\ IsW(p)})
+    writeWaiting = Cardinality({p \in Procs : pc[p] \in {"presel", "sel", "cs2", "cancelcs"} /\ IsW(p)})
 
 ModelSafe == Safe_C01 /\ Safe_C02 /\ NoHarnessError
 
 \* a failed path never changes the holder fields
 FailedPathsInert ==
-    [][\A p \in Procs : (CancelCS(p) \/ (TryCS(p) /\ st'[CurId(p)] = "failed")) =>
+    [][\A p \in Procs : (CancelCS(p) \/ (TryCS(p) /\ (st'[CurId(p)] = "failed" \/ rres'[p] = "false"))) =>
           UNCHANGED <<nreaders, writing>>]_vars
 =============================================================================
